@@ -935,8 +935,14 @@ func guardsOf(b *ssa.BasicBlock) []guard {
 	// a && b) is replaced by the guards it implies
 	if activeProg != nil {
 		var exp []guard
+		var known []rel
 		for _, g := range out {
-			if gs, ok := expandBoolGuard(g, 0); ok {
+			if r := activeProg.relOf(g); pureOperand.MatchString(r.X) && pureOperand.MatchString(r.Y) {
+				known = append(known, r)
+			}
+		}
+		for _, g := range out {
+			if gs, ok := expandBoolGuardK(g, 0, known); ok {
 				exp = append(exp, gs...)
 			} else {
 				exp = append(exp, g)
@@ -950,7 +956,12 @@ func guardsOf(b *ssa.BasicBlock) []guard {
 // expandBoolGuard: the guard's condition resolves to a phi of booleans of which exactly one edge can yield the
 // guarded polarity (the shape of a && b && … under true, of a || b || … under false): control then came through that
 // edge, so the guards of that edge hold. Sound by construction; returns false if the shape is different.
-func expandBoolGuard(g guard, depth int) ([]guard, bool) {
+func expandBoolGuard(g guard, depth int) ([]guard, bool) { return expandBoolGuardK(g, depth, nil) }
+
+// expandBoolGuardK: as expandBoolGuard; an edge whose own guards contradict one of the known facts (comparisons over
+// parameters and constants that hold where the guard is used) is not live either — `case a && b:` not taken and then
+// `a` established leaves only the edge on which b was false.
+func expandBoolGuardK(g guard, depth int, known []rel) ([]guard, bool) {
 	p := activeProg
 	if p == nil || depth > 3 {
 		return nil, false
@@ -976,6 +987,23 @@ func expandBoolGuard(g guard, depth int) ([]guard, bool) {
 	for i, e := range ph.Edges {
 		if c, ok := constBool(p.resolve(e)); ok && c != pol {
 			continue
+		}
+		if len(known) > 0 && !ph.Block().Dominates(ph.Block().Preds[i]) {
+			pr := ph.Block().Preds[i]
+			eg := guardsOfLocal(pr)
+			if iff, ok := pr.Instrs[len(pr.Instrs)-1].(*ssa.If); ok && pr.Succs[0] != pr.Succs[1] {
+				eg = append(eg, guard{Cond: iff.Cond, Pol: pr.Succs[0] == ph.Block(), If: iff})
+			}
+			refuted := false
+			for _, x := range eg {
+				r := p.relOf(x)
+				if n, isCmp := negOp[r.Op]; isCmp && pureOperand.MatchString(r.X) && pureOperand.MatchString(r.Y) && holds(known, r.X, n, r.Y) {
+					refuted = true
+				}
+			}
+			if refuted {
+				continue
+			}
 		}
 		if live >= 0 {
 			return nil, false
@@ -1011,6 +1039,7 @@ func guardsOfLocal(b *ssa.BasicBlock) []guard {
 		if d == nil {
 			break
 		}
+		out = append(out, mergeSyllogism(cur, out)...)
 		iff, ok := d.Instrs[len(d.Instrs)-1].(*ssa.If)
 		if !ok {
 			continue
@@ -1023,6 +1052,87 @@ func guardsOfLocal(b *ssa.BasicBlock) []guard {
 		}
 	}
 	return out
+}
+
+// mergeSyllogism: cur is a merge block with exactly two forward predecessors (the fall-through of a short-circuit
+// case such as `case a && b:` — control arrives with ¬a, or with a ∧ ¬b). If what is known below cur (the guards in
+// have, which hold wherever the block under consideration runs) contradicts a guard of one incoming edge, control came
+// through the other edge, and that edge's guards hold. Only comparisons over parameters and constants are used for the
+// contradiction (their rendering denotes one value throughout the call), and back edges are excluded.
+var pureOperand = regexp.MustCompile(`^(\$[A-Za-z_][A-Za-z_0-9]*|-?[0-9]+)$`)
+
+func mergeSyllogism(cur *ssa.BasicBlock, have []guard) []guard {
+	p := activeProg
+	if p == nil || len(cur.Preds) != 2 || len(have) == 0 {
+		return nil
+	}
+	for _, pr := range cur.Preds {
+		if cur.Dominates(pr) {
+			return nil
+		}
+	}
+	var haveRel []rel
+	for _, g := range have {
+		haveRel = append(haveRel, p.relOf(g))
+	}
+	edge := func(pr *ssa.BasicBlock) []guard {
+		gs := guardsOfLocal(pr)
+		if iff, ok := pr.Instrs[len(pr.Instrs)-1].(*ssa.If); ok && pr.Succs[0] != pr.Succs[1] {
+			gs = append(gs, guard{Cond: iff.Cond, Pol: pr.Succs[0] == cur, If: iff})
+		}
+		return gs
+	}
+	refuted := func(gs []guard) bool {
+		for _, g := range gs {
+			r := p.relOf(g)
+			if n, isCmp := negOp[r.Op]; isCmp && pureOperand.MatchString(r.X) && pureOperand.MatchString(r.Y) && holds(haveRel, r.X, n, r.Y) {
+				return true
+			}
+		}
+		return false
+	}
+	e0, e1 := edge(cur.Preds[0]), edge(cur.Preds[1])
+	switch r0, r1 := refuted(e0), refuted(e1); {
+	case r0 && !r1:
+		return e1
+	case r1 && !r0:
+		return e0
+	}
+	return nil
+}
+
+// holdsViaMerges: pred holds of the facts on every way control can arrive at b, splitting at merge blocks — a block
+// guarded by a disjunction (`if a || b { … }`) has no single dominating guard, but each of its incoming edges has one.
+// Walks b's dominator chain; at a merge block whose predecessors are all forward edges, pred must hold for the facts
+// of every incoming edge (or, recursively, for every way of arriving at that predecessor).
+func (p *Program) holdsViaMerges(b *ssa.BasicBlock, pred func([]guard) bool, depth int) bool {
+	if depth > 4 {
+		return false
+	}
+	for cur := b; cur != nil; cur = cur.Idom() {
+		if len(cur.Preds) < 2 {
+			continue
+		}
+		all := true
+		for _, pr := range cur.Preds {
+			if cur.Dominates(pr) {
+				all = false
+				break
+			}
+			gs := append([]guard{}, guardsOf(pr)...)
+			if iff, ok := pr.Instrs[len(pr.Instrs)-1].(*ssa.If); ok && pr.Succs[0] != pr.Succs[1] {
+				gs = append(gs, guard{Cond: iff.Cond, Pol: pr.Succs[0] == cur, If: iff})
+			}
+			if !pred(gs) && !p.holdsViaMerges(pr, pred, depth+1) {
+				all = false
+				break
+			}
+		}
+		if all {
+			return true
+		}
+	}
+	return false
 }
 
 // relOf normalises a guard to a comparison (or a boolean atom rendered as "<expr> == true").
